@@ -137,6 +137,28 @@ fn sizes(ctx: &mut Ctx) {
                 });
                 if r != Ok(Ok(true)) { ctx.violation("map.mutable.lost_write", format!("writes through a mutable map are not in the file after drop ({:?}) on {}", r, what())); }
             }
+            // The same with a file that carries no write permission bits: a process that may open it for writing anyway
+            // (root, CAP_DAC_OVERRIDE) gets a mutable map, and what it writes must still reach the file; a refusal is fine.
+            if mode == MappingMode::Mutable && size > 0 {
+                use std::os::unix::fs::PermissionsExt;
+                let _ = std::fs::set_permissions(&name, std::fs::Permissions::from_mode(0o444));
+                ctx.checks += 1;
+                let r = guard(|| -> Result<Option<bool>, String> {
+                    let mut map = match MemoryMap::new(&name, MappingMode::Mutable) { Ok(m) => m, Err(_) => return Ok(None) };
+                    let words = map.len();
+                    unsafe { let s = map.as_mut_slice(); for i in 0..std::cmp::min(words, s.len()) { s[i] = (i as u64).wrapping_mul(0x9E37_79B9_7F4A_7C15) ^ 0x3333; } }
+                    drop(map);
+                    let back = std::fs::read(&name).map_err(|e| e.to_string())?;
+                    Ok(Some(back.len() == size && (0..words).all(|i| { let mut x = [0u8; 8]; x.copy_from_slice(&back[i * 8..i * 8 + 8]); u64::from_le_bytes(x) == (i as u64).wrapping_mul(0x9E37_79B9_7F4A_7C15) ^ 0x3333 })))
+                });
+                match r {
+                    Ok(Ok(Some(true))) => ctx.count("sizes.readonly_bits.mutable_map_granted", 1),
+                    Ok(Ok(None)) => ctx.count("sizes.readonly_bits.mutable_map_refused", 1),
+                    other => ctx.violation("map.mutable.lost_write.readonly_bits", format!("writes through a mutable map of a file with mode 0444 are not in the file after drop ({:?}) on {}", other, what())),
+                }
+                let _ = std::fs::set_permissions(&name, std::fs::Permissions::from_mode(0o644));
+                if mapped_bytes(&name).0 != 0 { ctx.violation("map.drop.still_mapped", format!("a mapping of the mode-0444 file remains after drop on {}", what())); }
+            }
             let _ = std::fs::remove_file(&name);
             ctx.case(hash64(&[1, size as u64, mode as u64]), true);
             ctx.sample(|| format!("sizes: {}-byte file, {:?}: /proc/self/maps before/alive/after drop, content, Debug pointer{}", size, mode, if mode == MappingMode::Mutable { ", write-through" } else { "" }));
@@ -224,7 +246,33 @@ fn cycles(ctx: &mut Ctx) {
                 x.copy_from_slice(&content[i * 8..i * 8 + 8]);
                 if s.len() * 8 != content.len() || s[i] != u64::from_le_bytes(x) { ctx.violation("map.content", format!("cycle {}: element {} of a live map differs from the file", c, i)); ok = false; }
             }
-            while !alive.is_empty() { let i = rng.below(alive.len()); alive.swap_remove(i); }
+            // Drop one at a time (newest first in every other cycle); after each drop the survivors must still be mapped
+            // in full (accounted per file in /proc/self/maps before their memory is touched) and show the file content.
+            while !alive.is_empty() {
+                let i = if c % 2 == 0 { alive.len() - 1 } else { rng.below(alive.len()) };
+                alive.remove(i);
+                for (f, (name, content)) in files.iter().enumerate() {
+                    let expect = alive.iter().filter(|a| a.0 == f).count() * page_round(content.len());
+                    let have = mapped_bytes(name).0;
+                    ctx.checks += 1;
+                    if have != expect {
+                        ctx.violation("map.alive.lost_pages", format!("cycle {}: after dropping one map, {} bytes of a {}-byte file are mapped but {} live map(s) need {}", c, have, content.len(), alive.iter().filter(|a| a.0 == f).count(), expect));
+                        ok = false;
+                    }
+                }
+                if !ok { break; }
+                for (f, m) in alive.iter() {
+                    let s: &[u64] = m.as_ref();
+                    let content = &files[*f].1;
+                    for i in [0usize, s.len() - 1] {
+                        let mut x = [0u8; 8];
+                        x.copy_from_slice(&content[i * 8..i * 8 + 8]);
+                        ctx.checks += 1;
+                        if s[i] != u64::from_le_bytes(x) { ctx.violation("map.content", format!("cycle {}: element {} of a surviving map differs from the file", c, i)); ok = false; }
+                    }
+                }
+            }
+            if !ok { std::mem::forget(alive); break; }
             for (name, content) in files.iter() {
                 ctx.checks += 1;
                 let left = mapped_bytes(name);
